@@ -647,13 +647,64 @@ func c20Watcher(c *sim.Case) {
 	c.Class("watcher-machine")
 }
 
+// c20Shared: two settings that name the SAME CA file and differ only in the refresh interval - one does not ask for
+// reloads (unset or 0), the other does (a sub-second or fractional interval). The one that does not is loaded first
+// (loading it second would re-watch the file, which by the statement supersedes the first watcher). After a rotation
+// the second follows the file and the first keeps what it loaded: the interval is part of what makes settings identical.
+func c20Shared(c *sim.Case) {
+	e := c20Setup()
+	ctx, cancel := context.WithCancel(context.Background())
+	defer cancel()
+	pool := internal.NewTLSConfigPool(ctx)
+	file := filepath.Join(e.dir, fmt.Sprintf("shared-%d.pem", atomic.AddInt64(&c20File, 1)))
+	_ = os.WriteFile(file, e.cas[0].PEM, 0o644)
+	mk := func(has bool, iv time.Duration) *oidcv1.OIDCConfig {
+		cfg := &oidcv1.OIDCConfig{TrustedCaConfig: &oidcv1.OIDCConfig_TrustedCertificateAuthorityFile{TrustedCertificateAuthorityFile: file}}
+		if has {
+			cfg.TrustedCertificateAuthorityRefreshInterval = durationpb.New(iv)
+		}
+		return cfg
+	}
+	quietHas := sim.Bool(c, "quiet.explicit-zero")
+	iv := []time.Duration{150 * time.Millisecond, 300 * time.Millisecond, 900 * time.Millisecond, 1100 * time.Millisecond, 1500 * time.Millisecond}[sim.Pick(c, "watched.interval", 5)]
+	quiet, watched := mk(quietHas, 0), mk(true, iv)
+	tq, err1 := pool.LoadTLSConfig(quiet)
+	tw, err2 := pool.LoadTLSConfig(watched)
+	if err1 != nil || err2 != nil || tq == nil || tw == nil {
+		c.Violation("load-error", "loading two settings on one CA file: %v / %v", err1, err2)
+	}
+	c.Logf("one CA file; first setting without reloads (explicit zero: %v), second with interval %v", quietHas, iv)
+	for name, tc := range map[string]*tls.Config{"unwatched": tq, "watched": tw} {
+		pr := &tlsProbe{cfg: tc}
+		if !pr.try("ca0.tls.test") || pr.try("ca1.tls.test") {
+			c.Violation("shared-file:wrong-trust-before-rotation", "%s setting: trust before any rotation is not exactly CA_0", name)
+		}
+	}
+	_ = os.WriteFile(file, e.cas[1].PEM, 0o644)
+	time.Sleep(iv + 60*time.Millisecond)
+	pw, pq := &tlsProbe{cfg: tw}, &tlsProbe{cfg: tq}
+	deadline := time.Now().Add(5 * time.Second)
+	for !(pw.try("ca1.tls.test") && !pw.try("ca0.tls.test")) && time.Now().Before(deadline) {
+		time.Sleep(20 * time.Millisecond)
+	}
+	if !pw.try("ca1.tls.test") || pw.try("ca0.tls.test") {
+		c.Violation("shared-file:watched-setting-does-not-follow", "the setting with refresh interval %v still does not trust exactly the new content of its CA file %v after the rotation (another setting on the same file, without reloads, was loaded before it)", iv, time.Since(deadline.Add(-5*time.Second)))
+	}
+	if !pq.try("ca0.tls.test") || pq.try("ca1.tls.test") {
+		c.Violation("shared-file:unwatched-setting-changed", "the setting without a refresh interval no longer trusts exactly what it loaded, after the file was rotated for a sibling setting")
+	}
+	c.NonTrivial()
+	c.Class("shared-file")
+	c.FP("shared", quietHas, iv)
+}
+
 func TestC20(t *testing.T) {
 	c20Setup()
 	r := sim.NewRun(t, "C20")
 	defer r.Finish()
-	r.Rule = "per case 1-3 TLS settings: CA none / inline CA_i / CA file; skip-verify unset, true, false or a string (\"true\", \"false\", \"1\", \"TRUE\", \"yes\", \"\"); refresh interval unset, 0, 20 ms, 50 ms; histories of load (single and 2-4 concurrent), file rewrite (another CA, same bytes, garbage), wait, and HTTPS requests through clients built by the real NewHTTPClient against in-memory TLS servers whose certificates chain to the process system root (injected via SSL_CERT_FILE), CA_0..2 or a foreign CA; a closing round handshakes with every CA server after the longest interval. Oracle: reference trust function with the effective CA of a watched file = last valid content older than the interval (handshakes inside the interval are 'either', polled up to 5 s); pointer identity for identical settings; every configuration ever returned must follow a rotation. Separate state machine on FileWatcher with counting readers (watch, re-watch the same id, cancel). Non-trivial = the history rotated a CA file and afterwards handshook successfully with the new-CA server and unsuccessfully with an old-CA server / a watcher was superseded; distinct = distinct (settings, trace)."
-	r.Assumptions = []string{"real time: outcomes inside a refresh interval are not judged; expected outcomes after a rotation are polled for up to 5 s", "distinct settings use distinct files (one watcher per file is the documented contract)"}
-	parts := map[string]func(*sim.Case){"trust": c20Prop, "watcher": c20Watcher}
+	r.Rule = "per case 1-3 TLS settings: CA none / inline CA_i / CA file; skip-verify unset, true, false or a string (\"true\", \"false\", \"1\", \"TRUE\", \"yes\", \"\"); refresh interval unset, 0, 20 ms, 50 ms; histories of load (single and 2-4 concurrent), file rewrite (another CA, same bytes, garbage), wait, and HTTPS requests through clients built by the real NewHTTPClient against in-memory TLS servers whose certificates chain to the process system root (injected via SSL_CERT_FILE), CA_0..2 or a foreign CA; a closing round handshakes with every CA server after the longest interval. Oracle: reference trust function with the effective CA of a watched file = last valid content older than the interval (handshakes inside the interval are 'either', polled up to 5 s); pointer identity for identical settings; every configuration ever returned must follow a rotation. Part 'shared-file': two settings on one CA file, the first without reloads, the second with an interval of 150 ms - 1.5 s; after a rotation the second trusts the new content only and the first what it loaded. Separate state machine on FileWatcher with counting readers (watch, re-watch the same id, cancel). Non-trivial = the history rotated a CA file and afterwards handshook successfully with the new-CA server and unsuccessfully with an old-CA server / a watcher was superseded; distinct = distinct (settings, trace)."
+	r.Assumptions = []string{"real time: outcomes inside a refresh interval are not judged; expected outcomes after a rotation are polled for up to 5 s", "distinct settings that both ask for reloads use distinct files (re-watching a file supersedes the earlier watcher, by the statement)"}
+	parts := map[string]func(*sim.Case){"trust": c20Prop, "watcher": c20Watcher, "shared-file": c20Shared}
 	if r.Replay != "" {
 		r.ReplayFile(parts)
 		return
@@ -661,4 +712,5 @@ func TestC20(t *testing.T) {
 	r.CheckKnown(parts)
 	r.Rapid("trust", r.N(240, 4000), c20Prop)
 	r.Rapid("watcher", r.N(80, 1500), c20Watcher)
+	r.Rapid("shared-file", r.N(16, 200), c20Shared)
 }
